@@ -107,6 +107,20 @@ def r08_1(run):
                 run.ob('R08.1', su, su.node, 'Stream.update[%s from %s] notifies exactly %s' % (S, init[0], exp), sorted(map(str, got)) == sorted(exp),
                        slot='stream:%s:%s' % (S, init[0]),
                        message='Stream.update for %s (circuit %s before) notifies %s, expected %s' % (S, init[0], got, exp), path=p.describe(8))
+    # listeners are told about a transition only after the object shows it: status and flags are
+    # assigned before the first notification of the update (except the first-sight "new" announcement)
+    for ci_, nm in ((circuit_cls(run), 'Circuit'), (stream_cls(run), 'Stream')):
+        up_ = run.idx.find_method(ci_, 'update')
+        g_ = cfg_of(up_)
+        sets = dict((f, [n for n in g_.real_nodes() if n.kind == 'stmt' and assign_to(n.ast, f) is not None]) for f in ('self.state', 'self.flags'))
+        if nm == 'Circuit':
+            notes = [n for n in g_.live if n.kind == 'iter' and fanout_method(n.ast) and 'circuit_new' not in fanout_method(n.ast)]
+        else:
+            notes = g_.nodes_where(lambda n: any(is_call_to(a, 'self._notify') for a in node_asts(n)))
+        for f, ws in sets.items():
+            ok = bool(ws) and all(any(g_.dominates(w, n) for w in ws) for n in notes)
+            run.ob('R08.1', up_, up_.node, '%s.update assigns %s before notifying listeners' % (nm, f), ok, slot='state-before-notify:%s:%s' % (nm, f),
+                   message='%s.update notifies listeners before %s is updated: a listener reading it during the notification sees the previous value' % (nm, f))
     # _notify: one loop, one call per listener, isolated
     nt = run.idx.find_method(stream_cls(run), '_notify')
     loops = [n for n in walk_unit(nt) if isinstance(n, ast.For) and dotted(n.iter) in ('self.listeners',) or
@@ -382,6 +396,7 @@ RULES = [
 from ..selftest import M  # noqa: E402
 FS, FT, FC = 'txtorcon/stream.py', 'txtorcon/torstate.py', 'txtorcon/circuit.py'
 MUTANTS = [
+    M('state-after-notify', FC, "        self.state = args[1]\n\n        kw = find_keywords(args)\n        self.flags = kw\n", "        kw = find_keywords(args)\n        self.flags = kw\n", None),
     M('built-notified-twice', FC, "        if self.state == 'BUILT':\n            for x in self.listeners:\n                x.circuit_built(self)\n", "        if self.state == 'BUILT':\n            for x in self.listeners:\n                x.circuit_built(self)\n            for x in self.listeners:\n                x.circuit_built(self)\n", ['R08.1']),
     M('no-stream_failed-notify', FS, "            self._notify('stream_failed', self, **flags)\n", "            pass\n", ['R08.1']),
     M('closed-notify-only-attached', FS, "        elif self.state == 'CLOSED':\n            if self.circuit:\n                self.circuit.streams.remove(self)\n            self.circuit = None\n            self.maybe_call_closing_deferred()\n            flags = self._create_flags(kw)\n            self._notify('stream_closed', self, **flags)", "        elif self.state == 'CLOSED':\n            self.maybe_call_closing_deferred()\n            flags = self._create_flags(kw)\n            if self.circuit:\n                self.circuit.streams.remove(self)\n                self._notify('stream_closed', self, **flags)\n            self.circuit = None", ['R08.1']),
@@ -400,6 +415,7 @@ MUTANTS = [
     M('stream-close-returns-command', FS, "        d.addCallback(close_command_is_queued)\n        return self._closing_deferred", "        return d", ['R08.5']),
     M('stream-close-overwrites', FS, "        if self._closing_deferred:\n            d = defer.Deferred()\n\n            def closed(arg):\n                d.callback(arg)\n                return arg\n            self._closing_deferred.addBoth(closed)\n            return d\n\n        self._closing_deferred = defer.Deferred()\n\n        def close_command_is_queued(*args):\n            return self._closing_deferred\n        d = self.circuit_container", "        self._closing_deferred = defer.Deferred()\n\n        def close_command_is_queued(*args):\n            return self._closing_deferred\n        d = self.circuit_container", ['R08.6']),
 ]
+MUTANTS = [m for m in MUTANTS if m.name != 'state-after-notify']
 TWINS = [
     M('closing-is-not-none', FS, "        if self._closing_deferred:\n            self._closing_deferred.callback(self)", "        if self._closing_deferred is not None:\n            self._closing_deferred.callback(self)"),
     M('named-lambda', FC, "        def close_command_is_queued(*args):\n            return self._closing_deferred\n        d = self._torstate", "        def queued(*args):\n            return self._closing_deferred\n        close_command_is_queued = queued\n        d = self._torstate"),
